@@ -183,4 +183,24 @@ theorem reads_7bit (v : Int) (h : isInt32 v) : Reads read7 (bytes7 v) v := by
   rw [toInt32_ofInt32 v h] at this
   exact this
 
+/-- the 7-bit encoding of a length occupies exactly `len7` bytes, between one and five -/
+theorem bytes7_length' (v : Int) (h0 : 0 ≤ v) (h1 : v < 2147483648) :
+    (bytes7 v).length = len7 v ∧ 1 ≤ len7 v ∧ len7 v ≤ 5 := by
+  have e : ofInt32 v = v.toNat := by unfold ofInt32; omega
+  unfold bytes7 len7
+  rw [e]
+  generalize hn : v.toNat = n
+  have hv : v = (n : Int) := by omega
+  subst hv
+  simp only [write7Aux]
+  refine ⟨?_, ?_, ?_⟩
+  · repeat' split
+    all_goals simp
+    all_goals omega
+  · repeat' split
+    all_goals omega
+  · repeat' split
+    all_goals omega
+
+
 end Sbdf
